@@ -165,6 +165,18 @@ CORPUS = [
                'do odd(n) start if to say (n na 0) start return false end return even(n minus 1) end\nshout(even(10))\nshout(odd(7))\n'),
     ("early-capture", 'shout(f())\nmake x get 1\ndo f() start return x end\n'),
     ("inner-shadows-fn", 'do g() start return 5 end\ndo f(p) start do g(a) start return a end return g(p) end\nshout(f(2))\nshout(g())\n'),
+    # mutation through subscripts, activations, captured arrays (C04 / C05 shapes)
+    ("nested-mutation", 'make a get [[1,2],[3,4]]\na[1][0] get 9\na[0].push(5)\nshout(a)\nmake b get [[[1],[2]],[[3],[4]]]\n'
+                        'b[1][0].push(7)\nb[0][1][0] get 8\nshout(b[1][0].pop())\nb[1].reverse()\nshout(b)\nb[0][0].reverse()\n'
+                        'shout(b[1][1].push(6))\nshout(b)\nmake c get b\nc[0][0].push(0)\nshout(b)\nshout(c)\n'),
+    ("captured-array-same-name", 'make a get [[1],[2]]\ndo set_it() start a[0][0] get 9 a[1].push(3) end\n'
+                                 'do caller() start make a get [[5],[6]] set_it() shout(a) a[0][0] get 7 shout(a) end\ncaller()\nshout(a)\n'),
+    ("activation-locals", 'do rec(n) start\n  make l get [n]\n  if to say (n pass 0) start rec(n minus 1) end\n  l.push(n times 10)\n'
+                          '  l[0] get l[0] add 100\n  shout(l)\nend\nrec(2)\n'),
+    ("param-array-mutation", 'do grow(xs, k) start\n  xs.push(k)\n  if to say (k pass 0) start grow(xs, k minus 1) end\n  shout(xs)\n  return xs\nend\n'
+                             'make base get [9]\nshout(grow(base, 2))\nshout(base)\n'),
+    ("closure-counter-array", 'do mk() start\n  make log get []\n  do note(v) start log.push(v) return log.len() end\n  note(1)\n  note(2)\n'
+                              '  shout(log)\n  return note(3)\nend\nshout(mk())\nshout(mk())\n'),
     # runtime endings
     ("runtime-error", 'make a get [1]\nshout(a[5])\nshout("after")\n'),
     ("div-zero", 'shout(1 divide 0)\nshout(2)\n'),
@@ -328,6 +340,11 @@ STATIC_LINES = ['shout(zz_undeclared)', 'zz_undeclared get 1', 'comot', 'next', 
                 'shout(not 1)', 'if to say (1) start end', 'jasi ("s") start comot end', 'shout(typeof())', 'shout(to_string(1, 2))',
                 'do zz_d(a, a) start end', 'do zz_e() start end\ndo zz_e() start end', 'shout("a{zz_undeclared}")',
                 'make zz_a get [1]\nshout(zz_a["x"])', 'shout(null.len())', 'make zz_n get 1\nzz_n.push(2)',
+                # method argument counts on a receiver whose type is only known at run time
+                'do zz_f(p) start return p.slice() end', 'do zz_f(p) start return p.len(1) end', 'do zz_f(p) start return p.push() end',
+                'do zz_f(p) start return p.find() end', 'do zz_f(p) start return p.replace("a") end', 'do zz_f(p) start return p.join() end',
+                'do zz_f(p) start return p.nope(1, 2) end\nshout(1)', 'do zz_f(p) start return p.slice(1, 2, 3) end',
+                'do zz_f(p) start return p[0].slice() end', 'do zz_f(p) start p.push(1, 2) end',
                 # a method of another family on a receiver of every statically known type
                 'make zz_h get null\nshout(zz_h.to_uppercase())', 'make zz_b get true\nshout(zz_b.len())',
                 'make zz_k get 1\nshout(zz_k.len())', 'make zz_s get "s"\nshout(zz_s.sqrt())', 'make zz_r get [1]\nshout(zz_r.trim())',
